@@ -162,6 +162,14 @@ def real_update_kwargs(args):
     return kw
 
 
+def _copyable(x):
+    try:
+        copy.deepcopy(x)
+        return True
+    except Exception:  # noqa: BLE001
+        return False
+
+
 class Outcome:
     __slots__ = ("op", "real", "exp", "exc", "exp_exc", "pre_valid", "post_valid", "extra")
 
@@ -268,7 +276,18 @@ class Session:
         t.handles = {}
         t.path = None
         if self.cfg["storage"] == "mem":
-            t.db = copy.deepcopy(self.db)
+            try:
+                t.db = copy.deepcopy(self.db)
+            except Exception:  # noqa: BLE001 - a database object need not be copyable (locks, weak references, ...)
+                # same contents inserted into a fresh database, index validity aligned
+                t.db = t._open()
+                with quiet_stdout():
+                    for p_ in iter(self.db):
+                        t.db.insert(copy.deepcopy(p_) if _copyable(p_) else p_)
+                    if self.valid() and not t.valid():
+                        t.db.reindex()
+                    elif not self.valid() and t.valid():
+                        t.db.index.invalidate()
         else:
             t.path = self.scratch.new_db_path()
             try:
